@@ -731,12 +731,12 @@ func (c *Ctx) havocValue(old Value, prefix string) Value {
 	return old // pointers, slices, interfaces are left alone
 }
 
+// bytesEq compares two equally long byte strings as ONE wide equality (a single linear fact in Int mode).
 func bytesEq(x, y []Value) *Term {
-	r := TrueT
-	for i := range x {
-		r = And(r, Eq(termOf(x[i]), termOf(y[i])))
+	if len(x) == 0 {
+		return TrueT
 	}
-	return r
+	return Eq(bytesToTerm(x), bytesToTerm(y))
 }
 
 func bitLen(x *Term, w int) *Term {
